@@ -92,7 +92,7 @@ class GatedFlow:
                     ps = self.pe.paths(self.fn, x, at)
                 except Exception:
                     continue
-                for r, k in ps:
+                for r, k in sorted(ps):
                     if r != "cfg" or not k:
                         continue
                     key = ".".join(k)
@@ -454,13 +454,13 @@ def rule_art(ctx) -> None:
                 n_w += 1
                 name = const_str(c.args[0])
                 ok = all(gate_on(ctx, fn, n, pe, g) for g in ARTEFACTS[name])
-                ctx.check(ok, "C02.ART", f"{fn.qual}/{name}@{n.lineno}", fn.loc(c), f"{name} is written only under {ARTEFACTS[name]}", f"{name} can be written with its feature gate off")
+                ctx.check(ok, "C02.ART", ctx.okey(f"{fn.qual}/{name}"), fn.loc(c), f"{name} is written only under {ARTEFACTS[name]}", f"{name} can be written with its feature gate off")
             if call_tail(c) == "_write_or_capture_scheduler_event":
                 n_w += 1
                 # slice_ctx is not None  <=>  scheduler enabled at turn start
                 facts = cfg.facts(n)
                 ok = ("slice_ctx is not None", True) in facts or ("slice_ctx is None", False) in facts
-                ctx.check(ok, "C02.ART", f"{fn.qual}/scheduler-event@{n.lineno}", fn.loc(c), "the scheduler event is emitted only when a slice context exists", "a scheduler event can be emitted without a slice context")
+                ctx.check(ok, "C02.ART", ctx.okey(f"{fn.qual}/scheduler-event"), fn.loc(c), "the scheduler event is emitted only when a slice context exists", "a scheduler event can be emitted without a slice context")
     ctx.floor("C02.ART", "gated artefact writers in run_turn", n_w, 7)
     # slice_ctx is created only under the scheduler gate
     sl = [d for d in ctx.rd(fn).all_defs if d.name == "slice_ctx" and d.value is not None and isinstance(d.value, ast.Dict)]
@@ -501,7 +501,7 @@ def rule_mut(ctx) -> None:
     ctx.floor("C02.MUT", "GEL / scheduler call sites in run_turn", len(sites), 9)
     for n, c, gates in sites:
         ok = all(gate_on(ctx, fn, n, pe, g) for g in gates)
-        ctx.check(ok, "C02.MUT", f"{fn.qual}/{call_tail(c)}@{n.lineno}", fn.loc(c), f"{call_tail(c)} is reached only under {gates}", f"{call_tail(c)} is reachable with {gates} off")
+        ctx.check(ok, "C02.MUT", ctx.okey(f"{fn.qual}/{call_tail(c)}"), fn.loc(c), f"{call_tail(c)} is reached only under {gates}", f"{call_tail(c)} is reachable with {gates} off")
     # with the scheduler off, stale slice budgets are removed from ctx
     dels = [n for n in cfg.nodes if any(dotted(c.func) == "delattr" and len(c.args) == 2 and const_str(c.args[1]) == "slice_budgets" for c in node_calls(n))]
     ctx.check(bool(dels), "C02.MUT", f"{fn.qual}/slice-budgets-cleared", fn.loc(), "with the scheduler off, ctx.slice_budgets is removed so stages see no caps", "stale ctx.slice_budgets is not cleared when the scheduler is off")
